@@ -289,3 +289,91 @@ Definition seq_step (s : state) (l : label) : state :=
 Definition seq_run (shape : list bool) (ls : list label) : state := fold_left seq_step ls (init shape).
 
 End Variant.
+
+(* ---- scheduled execution at the granularity of the sync points (repaired code).
+   Besides C06's points: the beginning of every action, "slotguard.sent" (between the guard destructor's body
+   and the drop of its fields) and "close.field" (harness fields placed between the slots of the entry: the
+   closing thread parks after each slot except the last).  One grant lets one thread run to its next sync
+   point; it is a short label list of the LTS. *)
+Inductive act := AIdle | ATask (i : nat) | AGuard (i : nat).
+Record thr13 := mk_thr13 {
+  h_rest : list label;     (* actions still to begin *)
+  h_act : act;             (* what the thread is in the middle of *)
+  h_closer : bool;         (* it is closing the entry *)
+  h_stop : option nat      (* the sync point at which it parks once the closing is done *)
+}.
+
+Definition is_none {T} (o : option T) : bool := match o with None => true | Some _ => false end.
+
+(* code of the sync point: 0 between actions, 1/2/3 inside DropAll::drop, 4 slotguard.sent, 5 close.field *)
+Fixpoint block (fuel : nat) (s : state) (th : thr13) : state * thr13 * nat :=
+  match fuel with
+  | O => (s, th, 0)
+  | S f =>
+    if h_closer th then
+      let s1 := step true s CloseStep in
+      match closing s1 with
+      | Some k => if Nat.ltb k (length (slots s1)) then (s1, th, 5) else block f s1 th
+      | None =>
+          let th1 := mk_thr13 (h_rest th) (h_act th) false None in
+          match h_stop th with
+          | Some c => (s1, th1, c)
+          | None => block f s1 th1
+          end
+      end
+    else
+      match h_act th with
+      | ATask i =>
+          let p0 := C06.Model.pc_at (ka s) i in
+          let s1 := step true s (KA (C06.Model.LStep i)) in
+          let p1 := C06.Model.pc_at (ka s1) i in
+          let started := is_none (closing s) && negb (is_none (closing s1)) in
+          let a1 := if C06.Model.pc_eqb p1 C06.Model.PDone then AIdle else ATask i in
+          let stop := if C06.Model.stop_after p0 p1 then Some (C06.Model.pc_code p1) else None in
+          if started then block f s1 (mk_thr13 (h_rest th) a1 true stop)
+          else match stop with
+               | Some c => (s1, mk_thr13 (h_rest th) a1 false None, c)
+               | None => block f s1 (mk_thr13 (h_rest th) a1 false None)
+               end
+      | AGuard i =>
+          let n0 := length (C06.Model.tasks (ka s)) in
+          let s1 := step true s (GuardStep i) in
+          if Nat.ltb n0 (length (C06.Model.tasks (ka s1)))
+          then block f s1 (mk_thr13 (h_rest th) (ATask n0) false None)
+          else (s1, mk_thr13 (h_rest th) AIdle false None, 0)
+      | AIdle =>
+          match h_rest th with
+          | [] => (s, th, 0)
+          | l :: r =>
+              let n0 := length (C06.Model.tasks (ka s)) in
+              let s1 := step true s l in
+              let sending := match l with
+                             | DropGuard i => match nth_error (slots s1) i with
+                                              | Some sl => match g sl with GSend => Some i | _ => None end
+                                              | None => None
+                                              end
+                             | _ => None
+                             end in
+              match sending with
+              | Some i => (step true s1 (GuardStep i), mk_thr13 r (AGuard i) false None, 4)
+              | None =>
+                  if Nat.ltb n0 (length (C06.Model.tasks (ka s1)))
+                  then block f s1 (mk_thr13 r (ATask n0) false None)
+                  else (s1, mk_thr13 r AIdle false None, 0)
+              end
+          end
+      end
+  end.
+
+Fixpoint grants13 (s : state) (ths : list thr13) (ts : list nat) : list (nat * nat) * state :=
+  match ts with
+  | [] => ([], s)
+  | t :: r =>
+      match nth_error ths t with
+      | None => let '(o, fin) := grants13 s ths r in ((0, length (appended s)) :: o, fin)
+      | Some th =>
+          let '(s1, th1, c) := block 40 s th in
+          let '(o, fin) := grants13 s1 (C06.Model.set_nth t th1 ths) r in
+          ((c, length (appended s1)) :: o, fin)
+      end
+  end.
